@@ -41,6 +41,14 @@ def env():
     return e
 
 
+def tlog(msg):
+    if os.environ.get("VERIF_TIMING"):
+        print("[%7.1fs] %s" % (time.time() - T_START, msg), flush=True)
+
+
+T_START = time.time()
+
+
 def harness_error(msg):
     print("HARNESS-ERROR: " + msg, flush=True)
     sys.exit(2)
@@ -157,7 +165,7 @@ def shows(sim, text, viol):
     """Does replaying `text` in a fresh process show violation `viol`? Returns (bool, info)."""
     ob = viol["obligation"]
     want = abort_class(viol["detail"]) if ob == "P" else None
-    res = sim.replay(text, watchdog=8 if want == "watchdog" else 30)
+    res = sim.replay(text, watchdog=6 if want == "watchdog" else 30)
     if res["rc"] == 2 and want != "watchdog":
         return False, {"res": res, "note": "replay harness error"}
     if ob == "P":
@@ -194,10 +202,17 @@ def adopt_traces(runs, res):
     return runs
 
 
+DEADLINE = [None]
+
+
+def out_of_time():
+    return DEADLINE[0] is not None and time.time() > DEADLINE[0]
+
+
 def ddmin(items, test, budget):
     """Classic ddmin: smallest sublist (order kept) for which test(sublist) is true."""
     n = 2
-    while len(items) >= 2 and budget[0] > 0:
+    while len(items) >= 2 and budget[0] > 0 and not out_of_time():
         chunk = max(1, len(items) // n)
         subsets = [items[i:i + chunk] for i in range(0, len(items), chunk)]
         reduced = False
@@ -209,7 +224,7 @@ def ddmin(items, test, budget):
                 n = max(n - 1, 2)
                 reduced = True
                 break
-            if budget[0] <= 0:
+            if budget[0] <= 0 or out_of_time():
                 break
         if not reduced:
             if n >= len(items):
@@ -218,7 +233,17 @@ def ddmin(items, test, budget):
     return items
 
 
-def minimise(sim, text, viol, max_replays=400):
+def minimise(sim, text, viol, max_replays=400, seconds=75):
+    """Wall-clock bounded: long histories (a bounded memo needs > 1000 requests) replay slowly;
+    what is not minimal after `seconds` is reported as it stands."""
+    DEADLINE[0] = time.time() + seconds
+    try:
+        return minimise_inner(sim, text, viol, max_replays)
+    finally:
+        DEADLINE[0] = None
+
+
+def minimise_inner(sim, text, viol, max_replays):
     runs = parse_script(text)
     if viol["obligation"] == "P" and abort_class(viol["detail"]) == "watchdog":
         max_replays = 14  # every reproducing candidate costs a watchdog period
@@ -298,7 +323,7 @@ def minimise(sim, text, viol, max_replays=400):
     # history may need its own schedule. Search seeded schedules for every candidate.
     multi = any(len(set(t for t, _ in r["ops"])) > 1 for r in runs)
     if multi and count_ops(runs) > 3 and not (viol["obligation"] == "P" and abort_class(viol["detail"]) == "watchdog"):
-        t_end = time.time() + 90
+        t_end = min(time.time() + 60, DEADLINE[0] or (time.time() + 60))
         found = {}
 
         def with_policy(cand, policy, seed_):
@@ -435,8 +460,9 @@ MIRI_SCENARIOS = {
     "b": "as a, with one caller issuing two caught refusals (month 13, wrong leap month) first",
     "c": "two callers race on the first use of every lazy static",
     "d": "one caller's eight-char computation panics inside the provider's critical section while another caller asks valid eight characters",
+    "e": "two callers alternate between aliasing twins (year +-256 / +-60, term index +-24) of solar terms and leap-month lookups",
 }
-MIRI_PLAN = [("a", 0.05), ("a", 0.2), ("b", 0.05), ("b", 0.2), ("c", 0.05), ("c", 0.2), ("d", 0.2)]
+MIRI_PLAN = [("a", 0.05), ("a", 0.2), ("b", 0.05), ("b", 0.2), ("c", 0.05), ("c", 0.2), ("d", 0.2), ("e", 0.05), ("e", 0.2)]
 
 
 def miri_run(scenario, flags, timeout=3600):
@@ -502,7 +528,7 @@ def run_check(tier, seed):
     for (w0, nw, runs, conc, rpct) in cfg["explore"]:
         for w in range(w0, w0 + nw):
             out = os.path.join(work, "explore_%d.json" % w)
-            jobs.append(("explore%d" % w, [BIN, "explore", "--seed", str(seed), "--worker", str(w), "--runs", str(runs), "--seconds", str(cfg["seconds_cap"]), "--conc", str(conc), "--reset-pct", str(rpct), "--sample-fresh", str(cfg["fresh_sample"]), "--watchdog", "30", "--out", out], out))
+            jobs.append(("explore%d" % w, [BIN, "explore", "--seed", str(seed), "--worker", str(w), "--runs", str(runs), "--seconds", str(cfg["seconds_cap"]), "--conc", str(conc), "--reset-pct", str(rpct), "--sample-fresh", str(cfg["fresh_sample"]), "--watchdog", "20", "--out", out], out))
             explore_ids.append(w)
     # determinism self-check: two extra copies of worker 0 (prefix of its runs), digests compared
     det_outs = []
@@ -540,6 +566,7 @@ def run_check(tier, seed):
                 results[name] = (p.returncode, se, out)
         running = still
 
+    tlog("workers done")
     # collect
     harness = []
     cands = []  # violation candidates: dict(obligation,key,detail,history)
@@ -605,6 +632,7 @@ def run_check(tier, seed):
     if det_ok is False:
         harness.append("determinism self-check failed: two processes with the same seed produced different event logs")
 
+    tlog("collected: %d candidates" % len(cands))
     # cross-process agreement on the shared query pool
     pool_seen = {}
     for d in explore:
@@ -641,6 +669,7 @@ def run_check(tier, seed):
         harness.extend(miri_errs)
     MIRI_RESULT["stats"] = miri_stats
 
+    tlog("cross-process done: %d candidates" % len(cands))
     # a sample of evaluations from every worker against the same query alone in a really fresh
     # process (not just after the in-process restart hook)
     from concurrent.futures import ThreadPoolExecutor
@@ -682,6 +711,7 @@ def run_check(tier, seed):
         shutil.rmtree(work, ignore_errors=True)
         sys.exit(2)
 
+    tlog("fresh sample done: %d candidates" % len(cands))
     # confirm, minimise, report
     confirmed = []
     known_hits = []
@@ -694,7 +724,11 @@ def run_check(tier, seed):
         return 2 if abort_class(c["detail"]) == "watchdog" else 1
 
     cands.sort(key=cand_rank)
+    t_report = time.time()
+    report_budget = 200  # seconds for confirming and minimising everything together
     for c in cands:
+        if confirmed and time.time() - t_report > report_budget:
+            break
         if cand_rank(c) == 2 and (confirmed or known_hits):
             continue  # a hang costs a watchdog period per replay; other violations are already reported
         ident = (c["obligation"] if c["obligation"] in ("P", "R") else "A", c["key"] if c["obligation"] != "P" else abort_class(c["detail"]))
@@ -703,11 +737,17 @@ def run_check(tier, seed):
         seen_keys.add(ident)
         if len(confirmed) + len(known_hits) >= cfg["max_minimise"]:
             break
+        tlog("confirming %s %s (%d bytes of history)" % (c["obligation"], c["key"], len(c["history"])))
         good, info = shows(sim, c["history"], c)
+        tlog("confirmed=%s" % good)
         if not good:
             unconfirmed.append(c)
             continue
-        mtext, minfo, n0, n1 = minimise(sim, c["history"], c)
+        left = report_budget - (time.time() - t_report)
+        if left > 10:
+            mtext, minfo, n0, n1 = minimise(sim, c["history"], c, seconds=min(75, left))
+        else:
+            mtext, minfo, n0, n1 = None, None, count_ops(parse_script(c["history"])), 0
         if mtext is None:
             mtext, minfo, n1 = c["history"], info, n0
         ob = classify(c, mtext, minfo)
@@ -872,6 +912,7 @@ def write_evidence(tier, seed, t0, explore, sweeps, hashres, det_ok, det_n, cros
         "components": {"real": ["all of tyme4rs (built from /repo's working tree with feature verif)", "lazy_static", "regex", "std::sync::Mutex incl. poisoning", "std::thread (real OS threads, released one at a time)"], "simulated": ["choice of the running thread at every yield point", "hash-map iteration order (seeded hasher behind the verif seam)"], "stubbed": []},
         "build_s": round(build_s, 1),
         "runs_that_left_simulator_control_free_run": tot("free_run_runs"),
+        "allocator_seam": {"runs_with_allocation_yield_points": tot("runs_with_alloc_yields"), "allocation_yield_points_taken": tot("alloc_yields")},
         "harness_errors": harness,
         "known_findings_hit": [k.get("id", "") for k, _ in known_hits],
         "replays_written": [p for p, _ in confirmed],
@@ -893,6 +934,9 @@ def write_evidence(tier, seed, t0, explore, sweeps, hashres, det_ok, det_n, cros
     }
     os.makedirs(os.path.dirname(EVIDENCE), exist_ok=True)
     with open(EVIDENCE, "w") as f:
+        json.dump(ev, f, ensure_ascii=False, indent=1)
+    # a per-tier copy, so that a later quick run does not erase what the last thorough run covered
+    with open(EVIDENCE.replace(".json", ".%s.json" % tier), "w") as f:
         json.dump(ev, f, ensure_ascii=False, indent=1)
 
 
